@@ -4,6 +4,7 @@
                           sk[i] = kind of the signer info attached for pool certificate i)
      wire    1 iff DecodeSignedTRC of the CMS message succeeded and Verify(pred) returned nil
      direct  1 iff SignedTRC.Verify(pred) returned nil on the directly constructed value
+             (-2 in wire / direct: the call panicked)
    Monitor (only-if): accepted => AcceptOK (TRCOps, written from the statement).               *)
 EXTENDS TRCOps, TLC, Json
 
@@ -31,6 +32,7 @@ Case ==
         rule == AcceptRule(R.hp, P, N, S)
         code == CodeAccept(R.hp, P, N, S, TRUE)
         kind == IF ~R.hp THEN "base" ELSE IF RegularOK(P, N, S) THEN "regular" ELSE "sensitive" IN
+    /\ (R.wire = -2 \/ R.direct = -2) => Bad("verification-panics")
     /\ (acc /\ rule # "") => Bad((IF R.hp THEN "update" ELSE "base") \o "-accepted:" \o rule)
     /\ (R.wire = 1 /\ R.direct = 0) => Bad("decoded-accepted-but-direct-refused")
     /\ (acc # code) => PrintT(<<"VERIF-DRIFT", l, IF acc THEN "accepted-but-code-shape-refuses" ELSE "refused-but-code-shape-accepts">>)
